@@ -492,5 +492,5 @@ def macrolint(an, rep):
     for q in data["quotes"]:
         R.check(not q["findings"], "desert_macro::" + q["fn"], "quote! body", "generated code contains %s" % q["findings"],
                 "desert_macro/src/lib.rs:%s" % q["line"], sample={"fn": q["fn"], "clean": True})
-    R.floor("quote! bodies", len(data["quotes"]), 41)
+    R.floor("quote! bodies", len(data["quotes"]), 20)
     return R
